@@ -2,6 +2,7 @@
 resolvers, scalar codecs, directive stubs - wired from a schema model + plan."""
 import copy
 import itertools
+import json
 import types
 import zlib
 
@@ -510,7 +511,9 @@ class CountingDirective:
         r = await next_resolver(parent, args, ctx, info)
         tag = self.H.plan.get("directive_tag")
         if tag and isinstance(r, str) and str(info.return_type).rstrip("!") == "String":
-            return "%s<%s:%s>" % (r, tag, self.name)
+            r = "%s<%s:%s>" % (r, tag, self.name)
+        if self.H.plan.get("echo_directive_args") and isinstance(r, str) and str(info.return_type).rstrip("!") == "String":
+            r = "%s<@%s%s>" % (r, self.name, json.dumps(directive_args, sort_keys=True, default=str))  # what this usage's arguments were coerced to
         return r
 
     async def on_pre_output_coercion(self, directive_args, next_directive, value, ctx, info):
